@@ -36,7 +36,10 @@ def run_args(draw):
 
 @st.composite
 def ddl_source(draw):
-    k = draw(st.integers(0, 9))
+    k = draw(st.integers(0, 10))
+    if k == 10:
+        # Hive RegexSerDe scripts: the "input.regex" value travels through parser-object state
+        return {"t": "corpus", "item": draw(st.sampled_from([i for i, it in enumerate(universe.corpus()) if "input.regex" in it["ddl"]]))}
     if k <= 5:
         blocks = draw(universe.script(1, 3, unsupported_p=draw(st.sampled_from([0, 0, 3]))))
         ops = [draw(c13.comment_op(i)) for i in range(draw(st.integers(0, 2)))]
@@ -168,14 +171,16 @@ class C14(Prop):
             def first_object(self, src, norm, silent):
                 self._add(src, norm, silent)
 
-            @precondition(lambda self: len(self.parsers) < 3 and not self.broken)
+            @precondition(lambda self: len(self.parsers) < 3)
             @rule(src=ddl_source(), norm=st.one_of(st.none(), st.booleans()), silent=st.one_of(st.none(), st.booleans()))
             def construct(self, src, norm, silent):
-                self._add(src, norm, silent)
+                if not self.broken:
+                    self._add(src, norm, silent)
 
-            @precondition(lambda self: self.parsers and not self.broken)
             @rule(i=st.integers(0, 2), args=run_args(), fresh=st.integers(0, 4))
             def run(self, i, args, fresh):
+                if self.broken or not self.parsers:  # a violating history was already handed to the collector
+                    return
                 self.case["steps"].append({"o": i % len(self.parsers), "fresh": fresh == 0, "run": args})
                 # evaluate the whole history so far on fresh objects: the verdict of a history is a pure function of the case
                 out = prop.evaluate({"objs": self.case["objs"], "steps": self.case["steps"]})
